@@ -12,6 +12,7 @@ K:           harness/gkf.cpp (the real GKFparser, ASan+UBSan): EVERY well-formed
 E:           gama-local / gama-g3 / gama-local-deformation built with ASan+UBSan on mutated, truncated and option-varied
              inputs: must terminate, no sanitizer report, refusal with a line
 """
+import shutil
 import glob, os, random, re, subprocess, sys
 import vlib
 from checks import c18
@@ -534,6 +535,52 @@ def k_attributes(ctx, exe):
             if bad <= 5:
                 ctx.violation({"kind": "K:gkf-attributes", "input": text, "element": el, "attribute": a, "model": mv, "parser": ln}, why)
     ctx.obligation(bad == 0, "K:gkf-attributes %d documents" % len(cases))
+    # an attribute the schema requires (use="required") is taken away: the element must be refused on its line
+    reqs, meta = [], []
+    tries = 0
+    nreq = 150 if ctx.quick else 3000
+    while len(reqs) < nreq and tries < 20 * nreq:
+        tries += 1
+        w = random_document(rng, tags)
+        text, sem = render(w, tags, name)
+        if sem is not None:
+            continue
+        opens = [j for j, c in enumerate(w) if c >= 2 and any(r for _, r in xsd.get(name[tags[c - 2]], []))]
+        if not opens:
+            continue
+        j = rng.choice(opens)
+        el = name[tags[w[j] - 2]]
+        a = rng.choice([x for x, r in xsd[el] if r])
+        dl = text.split("\n")
+        new_line, k = re.subn(r'\s%s="[^"]*"' % re.escape(a), "", dl[j + 1], count=1)
+        if k != 1:
+            continue
+        dl[j + 1] = new_line
+        reqs.append(("D", "\n".join(dl)))
+        meta.append((el, a, j))
+    rc, out, err = run_gkf(exe, reqs)
+    out = [l for l in out if l]
+    bad2 = 0
+    if rc != 0 or len(out) != len(reqs):
+        ctx.violation({"kind": "K:gkf-attributes", "input": reqs[len(out)][1] if len(out) < len(reqs) else None, "rc": rc, "stderr": err[-3000:]},
+                      "GKFparser harness died (rc %d) on a document with a required attribute removed" % rc)
+        bad2 = 1
+    else:
+        for (el, a, j), (_, text), ln in zip(meta, reqs, out):
+            ctx.count(("attr-required", el, a, text), nontrivial=True)
+            ctx.hist("required_attribute_removed", "%s/%s" % (el, a))
+            wds = ln.split()
+            line = int(wds[1]) if wds[0] == "exc" else None
+            why = None
+            if wds[0] == "ok":
+                why = "<%s> without its required attribute %s is accepted (the data of the element cannot have been supplied)" % (el, a)
+            elif wds[0] != "exc" or line != j + 2:
+                why = "<%s> without its required attribute %s: refused at line %s, the element is on line %d (%s)" % (el, a, line, j + 2, ln[:100])
+            if why:
+                bad2 += 1
+                if bad2 <= 4:
+                    ctx.violation({"kind": "K:gkf-attributes", "input": text, "element": el, "attribute": a, "parser": ln}, why)
+    ctx.obligation(bad2 == 0, "K:gkf required attributes removed, %d documents" % len(reqs))
     ctx.sample({"attribute_case": cases[len(cases) // 2][3][-400:], "model": got[len(cases) // 2], "parser": lines[len(cases) // 2]})
 
 
@@ -741,6 +788,92 @@ def e_gama_local(ctx, bdir):
     ctx.obligation(bad == 0, "E:gama-local mutated inputs")
 
 
+def e_command_lines(ctx, bdir):
+    """every combination of command-line options: random argument vectors (known and unknown options, with and without their
+    values, dangling at the end, repeated; with one, two or no input file, '-', --input-xml, a missing file, a directory):
+    the program terminates without a signal or a sanitizer report"""
+    rng = ctx.rng
+    exe = os.path.join(bdir, "gama-local")
+    # copies in the scratch directory: an input placed after an option that writes a file (--export, --text ...) is overwritten
+    good = []
+    for i, f in enumerate([f for f in corpus_files() if f.endswith(".gkf") and os.path.getsize(f) < 20000][:8]):
+        g = os.path.join(ctx.scratch, "c11cl_in_%d.gkf" % i)
+        shutil.copyfile(f, g)
+        good.append(g)
+    originals = [f for f in corpus_files() if f.endswith(".gkf") and os.path.getsize(f) < 20000][:8]
+    sizes = [os.path.getsize(f) for f in originals]
+    names = ["algorithm", "language", "encoding", "angular", "latitude", "ellipsoid", "text", "html", "xml", "octave", "svg", "obs", "cov-band", "iterations", "export",
+             "verbose", "input-xml", "help", "version", "nonsense", "sqlitedb", "configuration", "readonly-configuration", "updated-xml"]
+    values = ["gso", "svd", "envelope", "cholesky", "en", "cz", "utf-8", "400", "360", "50", "wgs84", "-1", "0", "3", "yes", "no", "abc", "", "-", "--", "1e999"]
+    n = 150 if ctx.quick else 3000
+    bad = 0
+    for t in range(n):
+        args = []
+        k = rng.choice([0, 0, 1, 1, 1, 2])
+        inputs = [rng.choice(good + ["-", os.path.join(ctx.scratch, "no-such-file.gkf"), ctx.scratch]) for _ in range(k)]
+        for _ in range(rng.randrange(0, 5)):
+            nm = rng.choice(names)
+            args.append(rng.choice(["--", "-", "--", ""]) + nm)
+            if rng.random() < 0.75:
+                v = rng.choice(values)
+                if nm in ("text", "html", "xml", "octave", "svg", "obs", "export", "updated-xml") and rng.random() < 0.7:
+                    v = os.path.join(ctx.scratch, "c11cl_%d.%s" % (t, nm))
+                elif nm == "input-xml" and rng.random() < 0.7:
+                    v = rng.choice(good)
+                args.append(v)
+        for f in inputs:
+            args.insert(rng.randrange(len(args) + 1), f)
+        try:
+            p = subprocess.run([exe] + args, capture_output=True, timeout=120, stdin=subprocess.DEVNULL, cwd=ctx.scratch)    # bare words become output files
+            rc, out, err = p.returncode, p.stdout.decode("latin-1"), p.stderr.decode("latin-1")
+        except subprocess.TimeoutExpired:
+            rc, out, err = 124, "", "timeout"
+        ctx.count(("cmdline", tuple(os.path.basename(a) for a in args)), nontrivial=True)
+        ctx.hist("cmdline_inputs", len(inputs)); ctx.hist("cmdline_exit", rc)
+        why = classify(rc, out, err, "gama-local")
+        if why:
+            bad += 1
+            if bad <= 4:
+                ctx.violation({"kind": "E:command-line", "cmd": "gama-local " + " ".join(args), "rc": rc, "stderr": err[-2500:], "stdout": out[-300:]},
+                              "%s on the command line: gama-local %s" % (why, " ".join(os.path.basename(a) if a.startswith("/") else a for a in args)))
+        for f in glob.glob(os.path.join(ctx.scratch, "c11cl_%d.*" % t)):
+            os.remove(f)
+        for i, g in enumerate(good):       # restore inputs a command line has overwritten
+            if not os.path.exists(g) or os.path.getsize(g) != sizes[i]:
+                shutil.copyfile(originals[i], g)
+    ctx.obligation(bad == 0, "E:command lines")
+
+
+def mutate_g3_structure(rng, data):
+    """well-formed, schema-conforming changes of a gama-g3 input: a free point nobody observes, a removed observation block,
+    a changed status, a duplicated point"""
+    k = rng.randrange(4)
+    if k == 0:
+        m = re.search(rb"<obs>", data)
+        if m:
+            new = b"<free> <n/> <e/> <u/> </free>\n<point> <id>LONE%d</id> <x>3980000.0</x> <y>1030000.0</y> <z>4860000.0</z> </point>\n" % rng.randrange(100)
+            return data[:m.start()] + new + data[m.start():]
+    if k == 1:
+        ms = list(re.finditer(rb"<obs>.*?</obs>\s*", data, re.S))
+        if ms:
+            for m in sorted(rng.sample(ms, min(len(ms), rng.randrange(1, 4))), key=lambda m: -m.start()):
+                data = data[:m.start()] + data[m.end():]
+            return data
+    if k == 2:
+        ms = list(re.finditer(rb"<(free|fixed|constr)>", data))
+        if ms:
+            m = rng.choice(ms)
+            new = rng.choice([b"free", b"fixed", b"constr"])
+            e = data.find(b"</" + m.group(1) + b">", m.end())
+            if e > 0:
+                return data[:m.start(1)] + new + data[m.end(1):e + 2] + new + data[e + 2 + len(m.group(1)):]
+    ms = list(re.finditer(rb"<point>.*?</point>\s*", data, re.S))
+    if ms:
+        m = rng.choice(ms)
+        return data[:m.end()] + m.group(0) + data[m.end():]
+    return data
+
+
 def e_other_readers(ctx, bdir):
     """gama-g3's DataParser and the adjustment-results reader (gama-local-deformation) on mutated inputs"""
     rng = ctx.rng
@@ -751,8 +884,11 @@ def e_other_readers(ctx, bdir):
     for t in range(n):
         src = rng.choice(g3files)
         data = open(src, "rb").read()
-        for _ in range(rng.choice([1, 1, 2])):
-            data = mutate(rng, data)
+        if t % 3 == 0:
+            data = mutate_g3_structure(rng, data)
+        if t % 3 != 0 or rng.random() < 0.3:
+            for _ in range(rng.choice([1, 1, 2])):
+                data = mutate(rng, data)
         inp = os.path.join(ctx.scratch, "c11g_%d.xml" % t)
         open(inp, "wb").write(data)
         rc, out, err = run_tool([g3, inp, os.path.join(ctx.scratch, "c11g_%d.out" % t)])
@@ -896,6 +1032,7 @@ def run(ctx):
     c18.k_literals(ctx)
     bdir = vlib.build_repo(sanitize=True)
     e_gama_local(ctx, bdir)
+    e_command_lines(ctx, bdir)
     e_other_readers(ctx, bdir)
     e_g3_reflow(ctx, bdir)
     if not translated or not proofs_ok:
